@@ -34,7 +34,9 @@ GNext ==
         \/ \E k \in Searches :
               \/ (S_Entry(k) /\ Lbl(<<"S", "entry">>))
               \/ (S_Work(k, FALSE) /\ Lbl(<<"S", "work">>))
-              \/ (S_Check(k) /\ Lbl(<<"S", IF pc'[k] = "post" THEN "check-break" ELSE "check-go">>))
+              \* (an unlimited search running out of depth by itself cannot be forced on the real binary: excluded)
+              \/ (S_Check(k) /\ ~(kind[k] = "inf" /\ flag[k] /\ pc'[k] = "post")
+                  /\ Lbl(<<"S", IF pc'[k] = "post" THEN "check-break" ELSE "check-go">>))
               \/ (S_Spin(k) /\ Lbl(<<"S", "spin">>))
               \/ (S_Clear(k) /\ Lbl(<<"S", "clear">>))
               \/ (S_Best(k) /\ Lbl(<<"S", "best">>))
